@@ -433,7 +433,7 @@ pub open spec fn dims_ok(p: Seq<u8>, d: Dimensions) -> bool {
     d.start.0 as int == le32(p.subrange(0, 4)) && d.start.1 as int == le32(p.subrange(8, 12))
     && d.end.0 as int == le32(p.subrange(4, 8)) && d.end.1 as int == le32(p.subrange(12, 16))
 }
-// (not an entry point: its only caller, XlsbCellsReader::new, passes `&buf[..16]` -- the unchecked slice is an obligation of `new`)
+// (not an entry point: its only caller, XlsbCellsReader::new, passes `&buf[..16]` after checking the record length -- an obligation of `new`)
 proof fn witness_cell_format() { let b = Seq::<u8>::new(7, |i: int| 0u8); assert(b.len() >= 7); }
 //@@ fn src/xlsb/cells_reader.rs parse_dimensions props=C03 ret=r
 //@@ sig
@@ -701,10 +701,10 @@ pub open spec fn is_date_fmt(f: Option<CellFormat>) -> bool { f == Some(CellForm
         r is Ok ==> r->Ok_0.cur_row() == 0,
         //# C03.new_frame
         r is Ok ==> r->Ok_0.fmts() == formats@ && r->Ok_0.strs() == strings@ && r->Ok_0.f1904() == is_1904,
-        // the dimensions are those of a whole BrtWsDim (0x0094) record of the stream (when it has its 16 bytes)
+        // the dimensions are those of a whole BrtWsDim (0x0094) record of the stream, which has its 16 bytes (a shorter one is rejected)
         //# C03.new_dimensions
         r is Ok ==> exists|k: nat, t: Seq<u8>| #[trigger] boundary(iter.rem(), k, t) && rec_ok(t) && rec_typ(t) == 0x0094
-            && (rec_len(t) >= 16 ==> dims_ok(rec_payload(t), r->Ok_0.dims())),
+            && rec_len(t) >= 16 && dims_ok(rec_payload(t), r->Ok_0.dims()),
 //@@ end
 //@@ fn src/xlsb/cells_reader.rs XlsbCellsReader::next_cell props=C03 entry ret=r
 //@@ sig
